@@ -149,6 +149,43 @@ pub fn enumerate<V: Variant>(r: &mut Report, ctx: &Ctx, prop: &str) {
             },
         );
     }
+    let name = format!("utf8-{}", V::NAME);
+    if ctx.want(&name) {
+        r.section(
+            &name,
+            "valid-UTF-8 non-ASCII strings (so that the &str entry points from_str / str::parse / from_str_with are exercised on them): in each of the 6 base strings, r bytes (r in 0..=4) at every position are replaced by one of {U+00E9 (2 bytes), U+20AC (3 bytes), U+1D11E (4 bytes)}, giving right and wrong byte lengths; every entry point must agree with from_str_bytes and a wrong length must be a length error; non-trivial = all",
+            &format!("6 bases x {} positions x 3 characters x 5 replaced widths", V::STRLEN),
+            true,
+            |s| {
+                let chars: [&str; 3] = ["\u{e9}", "\u{20ac}", "\u{1d11e}"];
+                s.acc = par_for(6 * V::STRLEN as u64 * 15, 64, |idx, acc| {
+                    let rwidth = (idx % 5) as usize;
+                    let c = chars[((idx / 5) % 3) as usize];
+                    let pos = ((idx / 15) % V::STRLEN as u64) as usize;
+                    let b = (idx / 15 / V::STRLEN as u64) as usize;
+                    let st = base(b);
+                    if pos + rwidth > st.len() {
+                        return;
+                    }
+                    let mut out = st[..pos].to_vec();
+                    out.extend_from_slice(c.as_bytes());
+                    out.extend_from_slice(&st[pos + rwidth..]);
+                    acc.evals += 1;
+                    acc.transitions += 7;
+                    acc.nontrivial += 1;
+                    match judge_parse::<V>(&out) {
+                        Ok(fp) => {
+                            acc.outcomes.insert(fp);
+                            if idx % 997 == 0 {
+                                acc.sample(idx, || json!({"variant": V::NAME, "string": String::from_utf8_lossy(&out), "byte_len": out.len()}));
+                            }
+                        }
+                        Err(e) => acc.fail(idx, &name, e, json!({"kind": "parse", "variant": V::NAME, "string": hex(&out), "property": prop})),
+                    }
+                });
+            },
+        );
+    }
     let name = format!("lengths-{}", V::NAME);
     if ctx.want(&name) {
         r.section(
